@@ -2,6 +2,7 @@ package props
 
 import (
 	"fmt"
+	"strings"
 
 	"verif/internal/explore"
 	"verif/internal/h"
@@ -195,8 +196,85 @@ func checkC06(c *h.Check) {
 			addProg(fmt.Sprintf("C06/lookalike-tag/tag=%d/provided=%d", ti, prov), &ir.Program{Root: p, Injectors: []*ir.Injector{inj}})
 		}
 	}
+	// Family F: one removal that leaves two types without a source (both forms of a struct provider; both members of a
+	// removed set), needed by siblings in every parameter order: every one of them is named.
+	for variant := 0; variant < 2; variant++ {
+		for oa := 0; oa < 2; oa++ {
+			for ob := 0; ob < 2; ob++ {
+				b := ir.NewBuilder()
+				p := b.Root
+				var m1, m2 *ir.Type
+				if variant == 0 {
+					st := b.Agg(p, "Settings", &ir.Field{Name: "N", T: b.Leaf(p, "N")})
+					m1, m2 = st, ir.Ptr(st)
+				} else {
+					m1, m2 = b.Leaf(p, "X"), b.Leaf(p, "Y")
+				}
+				lg, sv, app := b.Leaf(p, "Logger"), b.Leaf(p, "Server"), b.Leaf(p, "App")
+				svParams := []*ir.Type{m2, ir.Ptr(lg)}
+				if ob == 1 {
+					svParams = []*ir.Type{ir.Ptr(lg), m2}
+				}
+				appParams := []*ir.Type{ir.Ptr(lg), ir.Ptr(sv)}
+				if oa == 1 {
+					appParams = []*ir.Type{ir.Ptr(sv), ir.Ptr(lg)}
+				}
+				inj := &ir.Injector{Name: "Init", Out: ir.Ptr(app), Items: []*ir.Item{
+					ir.FuncItem(&ir.Func{Pkg: p, Name: "NewLogger", Params: []*ir.Type{m1}, Out: ir.Ptr(lg)}),
+					ir.FuncItem(&ir.Func{Pkg: p, Name: "NewServer", Params: svParams, Out: ir.Ptr(sv)}),
+					ir.FuncItem(&ir.Func{Pkg: p, Name: "NewApp", Params: appParams, Out: ir.Ptr(app)}),
+				}}
+				prog := &ir.Program{Root: p, Injectors: []*ir.Injector{inj}}
+				id := fmt.Sprintf("C06/two-missing/variant=%d/app-order=%d/server-order=%d", variant, oa, ob)
+				base := judgeProgramF(prog, true, map[string]bool{"wiring": true}, focus)
+				missing := []ir.Reason{{Class: "missing", Subject: m1.Key()}, {Class: "missing", Subject: m2.Key()}}
+				cs := &h.Case{ID: id, Files: ir.Render(prog, true), Drive: true, Judge: func(r *h.Result) []h.Violation {
+					vs := base(r)
+					if len(vs) > 0 || !r.Root().Failed {
+						return vs
+					}
+					for _, m := range missing {
+						if !matchReason(r.Root().Diags, m) {
+							vs = append(vs, h.Violation{Symptom: "missing-type-not-named", Detail: fmt.Sprintf("two needed types have no source (%s and %s) but %s is not named by any diagnostic:\n%s", missing[0].Subject, missing[1].Subject, m.Subject, clip(strings.Join(r.Root().Diags, "\n"), 1200))})
+						}
+					}
+					return vs
+				}}
+				if c.NoteProgram(cs.Files) {
+					kinds.inc("model:missing")
+					cases = append(cases, cs)
+				}
+			}
+		}
+	}
 	results := c.JudgeAll(cases)
-	stdCoverage(c, cases, results, "E: struct providers selecting \"*\" over fields whose tags only resemble wire:\"-\" (json:\"-\", wire:\"x\", ...), with and without a source for the field; C: twin packages (same package name, same identifiers, different import paths) with either twin unprovided; D: two injectors over shared set objects where only the first one's wrapper set adds the source (binding, value, function, field, struct, interface value) the second one lacks, both declaration orders; A: every accepted base program (all DAGs on <=4 nodes, thorough 5, with every node reachable; node kind/type shape/placement deviations) with each single Build/NewSet item left out; B: near-miss substitutions (T vs *T both ways, implementation without binding, named vs underlying both ways, other named type, alias which must stay accepted) at every node of four shapes. Oracle: model verdict == wire verdict; a rejection names the missing type (or the unprovided concrete type of a binding) and writes nothing; accepted programs are compiled, run and trace-checked. Distinct = distinct rendered source.")
+	// Family G: the same programs (every seventh, all of F) generated with -header_file: "generates
+	// nothing" also when there is a header to write
+	{
+		var hdr []*h.Case
+		for i, cs := range cases {
+			if i%7 != 0 && !strings.HasPrefix(cs.ID, "C06/two-missing/") {
+				continue
+			}
+			nc := *cs
+			nc.ID = cs.ID + "/with-header"
+			nc.Files = map[string]string{"hdr.txt": "// Header of the project.\n\n"}
+			for p, cnt := range cs.Files {
+				nc.Files[p] = cnt
+			}
+			hdr = append(hdr, &nc)
+		}
+		if len(hdr) > 0 {
+			// every batch has a case directory c00000 holding hdr.txt
+			c.R.ExtraGen = []string{"-header_file", "c00000/hdr.txt"}
+			hres := c.JudgeAll(hdr)
+			c.R.ExtraGen = nil
+			cases = append(cases, hdr...)
+			results = append(results, hres...)
+			c.Coverage["with_header_file"] = len(hdr)
+		}
+	}
+	stdCoverage(c, cases, results, "G: every seventh program again under -header_file (a rejected one must still write nothing); F: two types left without a source at once (both forms of a struct provider, two leaves), needed by sibling providers in every parameter order: each is named; E: struct providers selecting \"*\" over fields whose tags only resemble wire:\"-\" (json:\"-\", wire:\"x\", ...), with and without a source for the field; C: twin packages (same package name, same identifiers, different import paths) with either twin unprovided; D: two injectors over shared set objects where only the first one's wrapper set adds the source (binding, value, function, field, struct, interface value) the second one lacks, both declaration orders; A: every accepted base program (all DAGs on <=4 nodes, thorough 5, with every node reachable; node kind/type shape/placement deviations) with each single Build/NewSet item left out; B: near-miss substitutions (T vs *T both ways, implementation without binding, named vs underlying both ways, other named type, alias which must stay accepted) at every node of four shapes. Oracle: model verdict == wire verdict; a rejection names the missing type (or the unprovided concrete type of a binding) and writes nothing; accepted programs are compiled, run and trace-checked. Distinct = distinct rendered source.")
 	c.Coverage["model_verdict_classes"] = kinds.summary()
 	sampleCase(c, cases, results)
 	if kinds["model:missing"] < 20 || kinds["model:accept"] < 5 {
